@@ -154,7 +154,13 @@ func runHist(job *histJob) *histResult {
 // barcode must be a snapshot of it.
 func aliasProbe(r Req) []string {
 	var out []string
-	data := append([]byte{}, r.S...)
+	// the argument is a sub-slice of a larger buffer: nothing beyond len may be touched
+	buf := make([]byte, len(r.S)+16)
+	for i := range buf {
+		buf[i] = 0xA5
+	}
+	copy(buf, r.S)
+	data := buf[:len(r.S)]
 	orig := append([]byte{}, r.S...)
 	var bc barcode.Barcode
 	var err error
@@ -170,6 +176,12 @@ func aliasProbe(r Req) []string {
 	}
 	if !bytes.Equal(data, orig) {
 		out = append(out, fmt.Sprintf("input-modified: aztec.Encode changed its data argument (%s)", r))
+	}
+	for i := len(r.S); i < len(buf); i++ {
+		if buf[i] != 0xA5 {
+			out = append(out, fmt.Sprintf("input-modified/spare-capacity: aztec.Encode wrote into the caller's buffer beyond len(data), at offset %d (%s)", i-len(r.S), r))
+			break
+		}
 	}
 	before := digest(bc)
 	content := bc.Content()
